@@ -18,8 +18,9 @@ type regWorld struct {
 	nextID   int
 	alive    map[string]bool // registered and not eliminated
 	started  bool
-	regs     int // registrants so far
-	initial  bool // inside the initial allocation
+	regs     int      // registrants so far
+	initial  bool     // inside the initial allocation
+	broken   []string // ids of tables that were told to break
 }
 
 func regNew() *regWorld {
@@ -52,6 +53,8 @@ func regNew() *regWorld {
 		WithAssignPlayersFn(func(tableID string, players []string) error {
 			_, ok := w.members[tableID]
 			vAssert(ok, "C09.assign-names-a-live-table")
+			// C20: whoever a broken table hands back is queued for *another* table, never sent back to it
+			vAssert(ok, "C20.nobody-is-assigned-to-a-broken-table")
 			vAssert(w.started, "C19.no-assignment-before-start")
 			for _, p := range players {
 				w.checkHandOut(p)
@@ -115,6 +118,49 @@ func (w *regWorld) regCheck(tag string) {
 	vAssert(w.r.GetTableCount() == len(w.order) && len(w.r.tables) == len(w.order), "C09.table-count-is-real-count-of-tables"+tag)
 }
 
+// regSnap / regSame: the whole bookkeeping of the regulator, for "refused without changing anything".
+type regSnapshot struct {
+	playerCount, tableCount int
+	status                  CompetitionStatus
+	queue                   []string
+	ids                     []string
+	count, required         []int
+}
+
+func (w *regWorld) regSnap() *regSnapshot {
+	s := &regSnapshot{playerCount: w.r.playerCount, tableCount: w.r.tableCount, status: w.r.status}
+	s.queue = append(s.queue, w.r.waitingQueue...)
+	for _, id := range w.order {
+		if t := w.r.tables[id]; t != nil {
+			s.ids = append(s.ids, id)
+			s.count = append(s.count, t.PlayerCount)
+			s.required = append(s.required, t.Required)
+		}
+	}
+	return s
+}
+
+func (w *regWorld) regSame(a *regSnapshot) bool {
+	b := w.regSnap()
+	if a.playerCount != b.playerCount || a.tableCount != b.tableCount || a.status != b.status {
+		return false
+	}
+	if len(a.queue) != len(b.queue) || len(a.ids) != len(b.ids) || len(w.r.tables) != len(a.ids) {
+		return false
+	}
+	for i := range a.queue {
+		if a.queue[i] != b.queue[i] {
+			return false
+		}
+	}
+	for i := range a.ids {
+		if a.ids[i] != b.ids[i] || a.count[i] != b.count[i] || a.required[i] != b.required[i] {
+			return false
+		}
+	}
+	return true
+}
+
 func (w *regWorld) register(k int) {
 	names := make([]string, 0, k)
 	for i := 0; i < k; i++ {
@@ -149,6 +195,7 @@ func (w *regWorld) sync(id string, out int) bool {
 		vAssert(rel == len(ms), "C20.break-returns-all-players")
 		vAssert(len(incoming) == 0, "C20.broken-table-receives-nobody")
 		delete(w.members, id)
+		w.broken = append(w.broken, id)
 		no := w.order[:0:0]
 		for _, o := range w.order {
 			if o != id {
@@ -206,6 +253,7 @@ func Harness_Reg_Unroll(n int, late int, k int, sweeps int) {
 	w.register(n)
 	vAssert(len(w.order) == 0, "C19.no-table-before-start")
 	w.regCheck("@pending")
+
 	w.started = true
 	w.initial = true
 	w.r.SetStatus(CompetitionStatus_Normal)
@@ -229,14 +277,22 @@ func Harness_Reg_Unroll(n int, late int, k int, sweeps int) {
 			w.r.SetStatus(CompetitionStatus_AfterRegDeadline)
 			closed = true
 			before := len(w.r.waitingQueue)
+			snap := w.regSnap()
 			err := w.r.AddPlayers([]string{"late"})
 			vAssert(err == ErrAfterRegDealline && len(w.r.waitingQueue) == before, "C09.registration-after-deadline-refused")
+			vAssert(w.regSame(snap), "C09.refused-registration-changes-nothing")
 			w.regCheck("@refused")
 		}
 		w.sync(w.order[ti], out)
 		w.regCheck("@sync")
-		_, _, err := w.r.SyncState("no-such-table", 0)
-		vAssert(err == ErrNotFoundTable, "C09.unknown-table-refused")
+		// an id never seen, and the id of a table that was broken earlier: both are unknown tables now
+		for _, unknown := range append([]string{"no-such-table"}, w.broken...) {
+			snap := w.regSnap()
+			rel, inc, err := w.r.SyncState(unknown, 1)
+			vAssert(err == ErrNotFoundTable, "C09.unknown-table-refused")
+			vAssert(rel == 0 && len(inc) == 0, "C09.refused-sync-asks-for-nothing")
+			vAssert(w.regSame(snap), "C09.refused-sync-changes-nothing")
+		}
 		w.regCheck("@unknown")
 	}
 	if sweeps > 0 {
@@ -269,4 +325,66 @@ func regSettle(w *regWorld, sweeps int) {
 		vAssert(!busy, "C20.idle-after-k-sweeps")
 	}
 	vCover("reg.settled")
+}
+
+// Harness_Reg_EarlyOps: operations arriving before the start - registrations in two batches, a release
+// with nobody to hand back, a sync naming a table that does not exist - open no table and lose nobody;
+// the start then allocates as usual.
+func Harness_Reg_EarlyOps(n1 int, n2 int) {
+	w := regNew()
+	w.register(n1)
+	vAssert(len(w.order) == 0 && w.r.GetTableCount() == 0, "C19.no-table-before-start")
+	err := w.r.ReleasePlayers("", []string{})
+	vAssert(err == nil, "C09.release-accepted")
+	vAssert(len(w.order) == 0 && w.r.GetTableCount() == 0, "C19.no-table-before-start")
+	w.regCheck("@pending-release")
+	w.register(n2)
+	snap := w.regSnap()
+	_, _, err = w.r.SyncState("no-such-table", 1)
+	vAssert(err == ErrNotFoundTable, "C09.unknown-table-refused")
+	vAssert(w.regSame(snap), "C09.refused-sync-changes-nothing")
+	err = w.r.ReleasePlayers("no-such-table", []string{})
+	vAssert(err == nil, "C09.release-accepted")
+	vAssert(len(w.order) == 0 && w.r.GetTableCount() == 0, "C19.no-table-before-start")
+	w.regCheck("@pending-2")
+	w.started = true
+	w.initial = true
+	w.r.SetStatus(CompetitionStatus_Normal)
+	w.initial = false
+	w.regCheck("@started-after-early-ops")
+	if n1+n2 >= w.min {
+		vCover("reg.early-ops-then-tables")
+	}
+	regSettle(w, 1)
+}
+
+// Harness_Reg_Mix: registrations interleaved with a sync after the start - n registrants, start, l1 more,
+// one sync of any live table with 0..4 eliminated, l2 more, then sweeps. (A table that was served only
+// partly from the queue must not be topped up above its capacity by the next batch.)
+func Harness_Reg_Mix(n int, l1 int, l2 int, sweeps int) {
+	w := regNew()
+	w.register(n)
+	w.started = true
+	w.initial = true
+	w.r.SetStatus(CompetitionStatus_Normal)
+	w.initial = false
+	w.regCheck("@started")
+	if l1 > 0 {
+		w.register(l1)
+		w.regCheck("@late-1")
+	}
+	if len(w.order) > 0 {
+		ti := vChoice("table", len(w.order))
+		out := vChoice("out", 5)
+		w.sync(w.order[ti], out)
+		w.regCheck("@sync")
+		vCover("reg.mix-sync")
+	}
+	if l2 > 0 {
+		w.register(l2)
+		w.regCheck("@late-2")
+	}
+	if sweeps > 0 {
+		regSettle(w, sweeps)
+	}
 }
